@@ -389,8 +389,11 @@ Lemma key_transpose_equivariant_lemma : forall M ns j i, circulantb M = true ->
   estimate_key_idx M ns = i /\ estimate_key_idx M (transpose j ns) = rot_key j i.
 Proof.
   intros M ns j i C U. split.
-  - apply argmax_by_unique; [apply key_lt_asym | exact U].
-  - apply argmax_by_unique; [apply key_lt_asym|].
+  - unfold estimate_key_idx.
+    exact (argmax_by_unique (key_lt M (ky_hist ns)) i (key_lt_asym M (ky_hist ns)) U).
+  - unfold estimate_key_idx.
+    refine (argmax_by_unique (key_lt M (ky_hist (transpose j ns))) (rot_key j i)
+              (key_lt_asym M (ky_hist (transpose j ns))) _).
     destruct U as [Hi U]. split; [apply rot_key_range; exact Hi|].
     intros k' Hk' Ne.
     set (k := rot_key (- j) k').
